@@ -349,6 +349,22 @@ def r3_resolver(ctx):
                         errs.setdefault(rv[1], 0)
                         errs[rv[1]] += 1
             ctx.ob("R3", "push:level-first", bump_first, "nesting_level += 1 precedes every binding", config=cfg)
+            # every attribute of the tag is looked at: a successful return happens only when the attribute iterator is
+            # exhausted or yields a malformed attribute, never after a well-formed one
+            early = []
+            okrets = 0
+            for p in paths:
+                r = ret_of(p)
+                if r is None or ends(p) != "ret" or describe_ret(r, 0)[0][:1] != ("Ok",):
+                    continue
+                okrets += 1
+                nx = [e for e in p if e[0] == "switch" and e[2][0] == "discr" and call_is(e[2][1], "next")]
+                item = [e for e in p if e[0] == "switch" and e[2][0] == "discr" and e[2][1][0] == "pl" and call_is(e[2][1][1], "next")]
+                exhausted = bool(nx) and nx[-1][3] in (0,) or (bool(nx) and nx[-1][3] == "else" and 0 not in nx[-1][4])
+                malformed = bool(item) and (item[-1][3] == 1 or (item[-1][3] == "else" and 1 not in item[-1][4]))
+                if not (exhausted or malformed):
+                    early.append(sorted({sym.show(e[2], 1)[:50] + "=" + str(e[3]) for e in p if e[0] == "switch"})[-2:])
+            ctx.ob("R3", "push:all-attributes", okrets >= 1 and not early, "push() returns Ok only after the last attribute (or at a malformed one): Ok returns %d, returning after a well-formed attribute: %s" % (okrets, early[:2]), config=cfg)
             psteps = {step_of(p, "Add") for p in paths if ends(p) in ("ret", "loop")} if pb is not None else set()
             ctx.ob("R3", "push:step", psteps == {1}, "every path of push() raises nesting_level by exactly 1: %s" % sorted(psteps, key=str)[:4], config=cfg)
             ctx.ob("R3", "push:entry-level", entries_level_ok and n_entries >= 2, "new entries carry the new nesting level (entries on paths: %d)" % n_entries, config=cfg)
